@@ -358,6 +358,34 @@ class ModuleInfo:
         return self.name if self.is_pkg else self.name.rsplit(".", 1)[0]
 
 
+class _DropLocalAnnotations(ast.NodeTransformer):
+    """`name: T = value` inside a function is `name = value` as far as behaviour goes; the rules are written for the
+    plain form (annotations on attributes and at class/module level are kept: they carry type facts the analyses use)"""
+
+    def __init__(self):
+        self.depth = 0
+
+    def visit_FunctionDef(self, node):
+        self.depth += 1
+        self.generic_visit(node)
+        self.depth -= 1
+        return node
+
+    visit_AsyncFunctionDef = visit_FunctionDef
+
+    def visit_ClassDef(self, node):
+        d, self.depth = self.depth, 0
+        self.generic_visit(node)
+        self.depth = d
+        return node
+
+    def visit_AnnAssign(self, node):
+        if self.depth > 0 and isinstance(node.target, ast.Name) and node.value is not None:
+            new = ast.Assign(targets=[node.target], value=node.value)
+            return ast.copy_location(new, node)
+        return node
+
+
 class Repo:
     def __init__(self, root: Optional[str] = None):
         self.root = root or repo_root()
@@ -388,6 +416,7 @@ class Repo:
                 tree = ast.parse(src, filename=path)
             except SyntaxError as e:
                 raise AnchorError(modname, f"syntax error: {e}")
+            tree = _DropLocalAnnotations().visit(tree)
             self.modules[modname] = ModuleInfo(modname, path, rel, tree, src, is_pkg)
         for m in self.modules.values():
             self._index_module(m)
